@@ -20,7 +20,7 @@ EPS = F(1, 10 ** 9)
 # ------------------------------------------------------------------------------ strategies
 
 @st.composite
-def fwd_case(draw, max_tasks=8, fixed=True, late_clock=True, balance=None, **kw):
+def fwd_case(draw, max_tasks=8, fixed=True, late_clock=True, balance=None, taskdep=False, end_only=False, **kw):
     spec = draw(specs.wbs_spec(max_tasks=max_tasks, **kw))
     m = Model(spec)
     rs = draw(specs.resources_spec())
@@ -45,13 +45,23 @@ def fwd_case(draw, max_tasks=8, fixed=True, late_clock=True, balance=None, **kw)
                     t['start'] = iso(e - timedelta(days=draw(st.integers(0, 10))))
                 elif k == 1:    # started: fixed start at a midnight, end open
                     t['start'] = iso(day(P) + timedelta(days=draw(st.integers(-10, 10))))
+                elif k == 2 and end_only:   # an end recorded without a start (only where start <= end is not judged, see F12)
+                    t['end'] = iso(N - timedelta(days=draw(st.integers(0, 30)), hours=draw(st.integers(0, 5))))
     sd = nm == 'equal' and draw(st.booleans())
+    if m.order and draw(st.integers(0, 5)) == 0:
+        # dated predecessors outside the WBS (some with the id of a member)
+        ext = []
+        for k in range(draw(st.integers(1, 2))):
+            e0 = P + timedelta(days=draw(st.integers(-20, 6)), hours=draw(st.sampled_from([0, 0, 15])))
+            ext.append(dict(id=draw(st.sampled_from([100 + k, draw(st.sampled_from(m.order))])), start=iso(e0 - timedelta(days=2)), end=iso(e0),
+                            succ=[draw(st.sampled_from(m.order))]))
+        spec['ext'] = ext
     return dict(dir='fwd', spec=spec, res=rs, P=iso(P), N=iso(N), start_default=sd, balance=draw(st.booleans()) if balance is None else balance,
-                dflt=draw(st.sampled_from([0, 0, 4])), reuse=draw(st.integers(0, 2)) == 0, wrap=draw(st.integers(0, 3)) == 0)
+                dflt=draw(st.sampled_from([0, 0, 4])), reuse=draw(st.integers(0, 2)) == 0, wrap=draw(st.sampled_from([0, 0, 0, 1, 2 if taskdep else 1])))
 
 
 @st.composite
-def bwd_case(draw, max_tasks=8, balance=None, **kw):
+def bwd_case(draw, max_tasks=8, balance=None, taskdep=False, **kw):
     kw.setdefault('min_start', False)
     spec = draw(specs.wbs_spec(max_tasks=max_tasks, **kw))
     rs = draw(specs.resources_spec(backward=True))
@@ -59,7 +69,7 @@ def bwd_case(draw, max_tasks=8, balance=None, **kw):
     E = BASE + timedelta(days=draw(st.integers(30, 40)), hours=draw(st.sampled_from([0, 0, 0, 10, 23])),
                          minutes=draw(st.sampled_from([0, 0, 30])))
     return dict(dir='bwd', spec=spec, res=rs, P=iso(E), N=iso(datetime(2020, 1, 1)), balance=draw(st.booleans()) if balance is None else balance,
-                dflt=draw(st.sampled_from([0, 0, 4])), reuse=draw(st.integers(0, 2)) == 0, wrap=draw(st.integers(0, 3)) == 0)
+                dflt=draw(st.sampled_from([0, 0, 4])), reuse=draw(st.integers(0, 2)) == 0, wrap=draw(st.sampled_from([0, 0, 0, 1, 2 if taskdep else 1])))
 
 
 def any_case(max_tasks=8, **kw):
@@ -95,7 +105,7 @@ def run(case, wbs=None):
     else:
         o.wbs, o.objs, o.ext = wbs
     handles = []
-    o.resources_in = specs.make_resources(case['res'], handles, wrap=bool(case.get('wrap')))
+    o.resources_in = specs.make_resources(case['res'], handles, wrap=case.get('wrap') or 0)
     o.sched = make_scheduler(case, o.resources_in)
     o.error = None
     if case.get('reuse'):
@@ -127,6 +137,14 @@ def warm_up(case, o, handles):
         w2, _, _ = specs.build(spec2)
     except Exception:
         return
+    try:
+        # a what-if on the default resources of an earlier plan: they are edited afterwards - a later scheduler that is
+        # not given these names must still get fresh Monday-Friday 8-unit defaults
+        r0 = make_scheduler(case, None).calc(w2)
+        for r in r0.resources:
+            r.calendar = WeeklyCalendar(days=[5, 6], units_per_day=10)
+    except Exception:
+        pass
     odd = [Resource(n, WeeklyCalendar(days=[1, 3, 5], units_per_day=3)) for n in specs.RES_NAMES]
     try:
         make_scheduler(case, odd).calc(w2)
